@@ -239,6 +239,10 @@ def check_placement(eng, walk, mol_idx, node, p, prev, q, is_start):
                 ok = True
                 break
         mi = np.linalg.norm(minimg(d, box))
+        if step > 0.5 * float(np.min(box)):
+            # a step longer than half the box: the nearest image of the parent is not the one it was grown from
+            stat("steps_longer_than_half_box")
+            mi = step if ok else mi
         if not ok or abs(mi - step) > 1e-9 * max(1.0, step):
             V.append(("step-length-wrong", "residue %s grown from %s: minimum-image distance %r, step length %r (factor %r x size %r)" %
                       (node, prev, mi, step, walk.step_fudge, sig)))
